@@ -36,6 +36,7 @@ type c07Scenario struct {
 	LatencyNs       int64      `json:"latency_ns"`
 	Dawdle          int        `json:"handler_dawdle"`
 	AcrossReconnect bool       `json:"request_pending_across_reconnect,omitempty"`
+	FailingWrite    bool       `json:"last_request_write_fails_while_its_answer_arrives,omitempty"`
 	HandlerIQ       int        `json:"handler_sends_iq"` // number of server requests whose handler issues a SendIQ of its own
 }
 
@@ -75,6 +76,7 @@ func runC07(e *Engine, g G, o RunOpt) RunInfo {
 	}
 	sc.Dawdle = g.N("dawdle", 3)
 	sc.AcrossReconnect = !sc.Component && g.Pct("across-reconnect", 15)
+	sc.FailingWrite = !sc.AcrossReconnect && g.Pct("failing-write", 12)
 	if g.Pct("handler-iq", 30) {
 		sc.HandlerIQ = g.Range("handler-iq-n", 1, 3)
 	}
@@ -567,6 +569,26 @@ func runC07(e *Engine, g G, o RunOpt) RunInfo {
 		}
 		pendingAtEnd = xmpp.VerifPendingIQ(router)
 		live = e.LiveTasks()
+		if sc.FailingWrite && !conn.Dead {
+			// Last of all (it breaks the connection): the write of a request fails while an element
+			// carrying its id is already arriving. Whatever becomes of that element, nothing may crash.
+			id := "qfw"
+			raw, _ := resp(id, "result")
+			ce := conn.Pipe.Cli
+			ce.FailWriteAt = ce.Writes + 1
+			conn.Send(raw)
+			iq, _ := stanza.NewIQ(stanza.Attrs{Type: stanza.IQTypeGet, Id: id, To: SimDomain})
+			iq.Payload = &stanza.Version{}
+			ctx, cancel := context.WithCancel(context.Background())
+			e.Call("SendIQ "+id+" (write fails)", func() error {
+				_, err := sender.SendIQ(ctx, iq)
+				return err
+			})
+			e.Sleep(time.Second)
+			cancel()
+			e.Sleep(time.Duration(sc.Client.ConnectTimeout+2) * time.Second)
+			e.Probe("c07.write_fails_while_answer_arrives")
+		}
 	})
 
 	info := RunInfo{Scenario: sc}
